@@ -187,8 +187,22 @@ def build_reference(root, package='csep'):
                 funcs[q] = {'hash': h, 'params': params, 'locals': order}
             funcs['__sha__'] = hashlib.sha1(open(path, 'rb').read()).hexdigest()
             funcs['__consts__'] = sorted(module_names(tree))
+            funcs['__classattrs__'] = sorted(class_attr_names(tree))
             ref[rel.replace(os.sep, '/')] = funcs
     return ref
+
+
+def class_attr_names(tree):
+    """'Class.name' for every name bound by an assignment in a class body"""
+    out = set()
+    for c in ast.walk(tree):
+        if isinstance(c, ast.ClassDef):
+            for st in c.body:
+                if isinstance(st, (ast.Assign, ast.AnnAssign)):
+                    for t in (st.targets if isinstance(st, ast.Assign) else [st.target]):
+                        if isinstance(t, ast.Name):
+                            out.add('%s.%s' % (c.name, t.id))
+    return out
 
 
 def module_names(tree):
@@ -492,14 +506,26 @@ def _fold_flags(body, consts):
     return out
 
 
-def splice(gnode, call, target_kind, target, caller_locals, is_method=False):
+def splice(gnode, call, target_kind, target, caller_locals, is_method=False, allow_nonlocal=False):
     """statements equivalent to the call of `gnode` in the given statement context, or raise NotInlineable"""
-    if _contains(gnode, (ast.Yield, ast.YieldFrom, ast.Global, ast.Nonlocal)) or isinstance(gnode, ast.AsyncFunctionDef):
+    if _contains(gnode, (ast.Yield, ast.YieldFrom, ast.Global)) or isinstance(gnode, ast.AsyncFunctionDef):
+        raise NotInlineable('generator / global')
+    if _contains(gnode, (ast.Nonlocal,)) and not allow_nonlocal:
         raise NotInlineable('generator / global')
     binding = _bind(gnode, call, is_method)
     body = copy.deepcopy(_strip_docstring(gnode.body))
-    stored = _stored_names(body)
+    # a helper nested directly in its caller: the names it declares nonlocal ARE the caller's locals - spliced in, the declaration
+    # goes away and the names keep their spelling
+    nonlocals = set()
+    for st in list(body):
+        if isinstance(st, ast.Nonlocal):
+            nonlocals.update(st.names)
+            body.remove(st)
+    if any(isinstance(n, ast.Nonlocal) for st in body for n in ast.walk(st)):
+        raise NotInlineable('generator / global')
+    stored = _stored_names(body) - nonlocals
     gparams, glocals = local_names(gnode)
+    glocals = [x for x in glocals if x not in nonlocals]
     rename = {}
     pre = []
     consts = {}
@@ -677,7 +703,8 @@ class _Inliner:
             self.failed[g.name] = 'inlining budget exhausted'
             return None
         try:
-            return splice(g, call, kind, target, set(self._orig_locals), is_method)
+            nested_here = any(gg is g and gp is fnode for (gg, gc_, gp) in self.new.values())
+            return splice(g, call, kind, target, set(self._orig_locals), is_method, allow_nonlocal=nested_here)
         except NotInlineable as e:
             self.failed[g.name] = str(e)
             return None
@@ -1406,6 +1433,111 @@ def inline_expression_helpers(tree, new):
     return n_done[0]
 
 
+def localise_new_class_tables(tree, known_attrs):
+    """a table kept as a class attribute that the reference does not have (`_region_loaders = {...}` hoisted out of a method) and that
+    the methods of the class only read through `self.X` / `cls.X` / `Class.X` is written back as a local of every method that reads
+    it.  Bound once in one class body to a display of literals and global names; no attribute store of that name anywhere in the
+    module; no related class of the module binds the same name."""
+    classes = {c.name: c for c in ast.walk(tree) if isinstance(c, ast.ClassDef)}
+    attr_stores = {n.attr for n in ast.walk(tree) if isinstance(n, ast.Attribute) and not isinstance(n.ctx, ast.Load)}
+
+    def simple(e):
+        if _is_literal(e):
+            return True
+        if isinstance(e, (ast.Name, ast.Attribute)):
+            return True
+        if isinstance(e, (ast.List, ast.Tuple, ast.Set)):
+            return all(simple(x) for x in e.elts)
+        if isinstance(e, ast.Dict):
+            return all(k is not None and simple(k) for k in e.keys) and all(simple(v) for v in e.values)
+        return False
+
+    def ancestors(c):
+        out, todo = set(), [c]
+        while todo:
+            for b in todo.pop().bases:
+                if isinstance(b, ast.Name) and b.id in classes and b.id not in out:
+                    out.add(b.id)
+                    todo.append(classes[b.id])
+        return out
+    owners = {}
+    for c in classes.values():
+        for st in c.body:
+            if isinstance(st, ast.Assign) and len(st.targets) == 1 and isinstance(st.targets[0], ast.Name):
+                owners.setdefault(st.targets[0].id, []).append((c, st.value))
+    done = []
+    READ_METHODS = {'get', 'keys', 'items', 'values', 'index', 'count', 'copy'}
+    for nm, lst in owners.items():
+        if nm in attr_stores or (nm.startswith('__') and nm.endswith('__')):
+            continue
+        names = [c.name for c, _ in lst]
+        if len(set(names)) != len(names) or any(set(names) & ancestors(c) for c, _ in lst):
+            continue
+        for c, val in lst:
+            if '%s.%s' % (c.name, nm) in known_attrs:
+                continue
+            if not (isinstance(val, (ast.List, ast.Dict, ast.Set, ast.Tuple)) and simple(val)):
+                continue
+            # every read in the module must be self.X / cls.X / C.X inside a method of c, in a read-only position
+            par = {}
+            for n in ast.walk(tree):
+                for ch in ast.iter_child_nodes(n):
+                    par[ch] = n
+            reads = [n for n in ast.walk(tree) if isinstance(n, ast.Attribute) and n.attr == nm and isinstance(n.ctx, ast.Load)]
+            plain = [n for n in ast.walk(c) if isinstance(n, ast.Name) and n.id == nm and isinstance(n.ctx, ast.Load)]
+            if plain:
+                continue          # read as a bare name inside the class body (another class attribute built from it)
+            ok = True
+            methods = {}
+            for r in reads:
+                m_ = r
+                while m_ is not None and not (isinstance(m_, (ast.FunctionDef, ast.AsyncFunctionDef)) and par.get(m_) is c):
+                    m_ = par.get(m_)
+                if m_ is None or not m_.args.args or any(isinstance(d, ast.Name) and d.id == 'staticmethod' for d in m_.decorator_list) and not \
+                        (isinstance(r.value, ast.Name) and r.value.id == c.name):
+                    ok = False
+                    break
+                first = m_.args.args[0].arg if m_.args.args else None
+                if not (isinstance(r.value, ast.Name) and r.value.id in (first, c.name)):
+                    ok = False
+                    break
+                p_ = par.get(r)
+                if not ((isinstance(p_, ast.Subscript) and p_.value is r and isinstance(p_.ctx, ast.Load)) or
+                        (isinstance(p_, ast.Compare) and r in p_.comparators) or
+                        (isinstance(p_, (ast.For, ast.comprehension)) and p_.iter is r) or
+                        (isinstance(p_, ast.Attribute) and p_.attr in READ_METHODS) or
+                        (isinstance(p_, ast.Call) and r in p_.args) or isinstance(p_, (ast.keyword, ast.Starred))):
+                    ok = False
+                    break
+                methods.setdefault(id(m_), (m_, []))[1].append(r)
+            if not ok or not methods:
+                continue
+            for m_, rs in methods.values():
+                params, locs = local_names(m_)
+                if nm in params or nm in locs:
+                    ok = False
+            if not ok:
+                continue
+            for m_, rs in methods.values():
+                for r in rs:
+                    p_ = par[r]
+                    new = ast.copy_location(ast.Name(id=nm, ctx=ast.Load()), r)
+                    for fld, v in ast.iter_fields(p_):
+                        if v is r:
+                            setattr(p_, fld, new)
+                        elif isinstance(v, list) and any(x is r for x in v):
+                            v[:] = [new if x is r else x for x in v]
+                k = 1 if (m_.body and isinstance(m_.body[0], ast.Expr) and isinstance(getattr(m_.body[0], 'value', None), ast.Constant)
+                          and isinstance(m_.body[0].value.value, str)) else 0
+                st = ast.Assign(targets=[ast.Name(id=nm, ctx=ast.Store())], value=copy.deepcopy(val), lineno=m_.lineno, col_offset=0)
+                ast.copy_location(st, m_.body[k] if k < len(m_.body) else m_)
+                m_.body.insert(k, st)
+            done.append('%s.%s' % (c.name, nm))
+    if done:
+        ast.fix_missing_locations(tree)
+    return sorted(done)
+
+
 def localise_new_tables(tree, known):
     """a module-level table the reference does not have (`_REGION_LOADERS = {...}`, `_HEADER = [...]` hoisted out of a function)
     is written back as a local of every function that reads it: bound once, at module level, to a display of literals and global
@@ -1493,6 +1625,61 @@ def localise_new_tables(tree, known):
     return sorted(done)
 
 
+def materialise_imported_helpers(prog, ref):
+    """a helper that the reference does not have, defined at module level in one package module and imported by name into another
+    (`from csep.utils.readers import _first_occurrence_index`), is copied into the importing module, where the ordinary splicing of
+    new helpers applies.  Only when the global names the helper reads mean the same in both modules (same import statement text) or
+    are builtins."""
+    import builtins as _b
+    out = {}
+    by_name = {m.name: m for m in prog.modules.values()}
+
+    def import_table(tree):
+        t = {}
+        for st in tree.body:
+            if isinstance(st, ast.Import):
+                for a in st.names:
+                    t[(a.asname or a.name).split('.')[0]] = 'import %s as %s' % (a.name, a.asname or a.name)
+            elif isinstance(st, ast.ImportFrom):
+                for a in st.names:
+                    t[a.asname or a.name] = 'from %s%s import %s' % ('.' * (st.level or 0), st.module or '', a.name)
+        return t
+    new_in = {}
+    for m in prog.modules.values():
+        rfuncs = ref.get(m.relpath.replace(os.sep, '/'))
+        if rfuncs is None:
+            continue
+        new_in[m.name] = {st.name: st for st in m.tree.body if isinstance(st, ast.FunctionDef) and st.name not in rfuncs}
+    for m in prog.modules.values():
+        if m.name not in new_in:
+            continue
+        here = import_table(m.tree)
+        for st in list(m.tree.body):
+            if not isinstance(st, ast.ImportFrom) or st.level:
+                continue
+            src = by_name.get(st.module or '')
+            if src is None or src is m or src.name not in new_in:
+                continue
+            there = import_table(src.tree)
+            for a in list(st.names):
+                g = new_in[src.name].get(a.name)
+                if g is None or a.asname not in (None, a.name):
+                    continue
+                params, locs = local_names(g)
+                free = {n.id for n in ast.walk(g) if isinstance(n, ast.Name) and isinstance(n.ctx, ast.Load)} - set(params) - set(locs)
+                if not all(hasattr(_b, nm) or (nm in here and here.get(nm) == there.get(nm)) for nm in free):
+                    continue
+                if any(isinstance(x, ast.FunctionDef) and x.name == a.name for x in m.tree.body):
+                    continue
+                st.names.remove(a)
+                idx = m.tree.body.index(st) + 1
+                m.tree.body.insert(idx, copy.deepcopy(g))
+                out.setdefault(m.name, []).append('%s.%s' % (src.name, a.name))
+            if not st.names:
+                m.tree.body.remove(st)
+    return out
+
+
 # ------------------------------------------------------------------------------------------------ driver
 def apply(prog):
     """mutate the module trees of `prog`; fills prog.alias (new qualified name -> reference qualified name) and
@@ -1506,6 +1693,9 @@ def apply(prog):
         # parent links would make every deepcopy drag the whole module along; the loader sets them again afterwards
         for n in ast.walk(m.tree):
             n.__dict__.pop('_parent', None)
+    moved = materialise_imported_helpers(prog, ref)
+    if moved:
+        prog.normalization['imported_helpers_materialised'] = moved
     for m in prog.modules.values():
         rfuncs = ref.get(m.relpath.replace(os.sep, '/'))
         if rfuncs is None:
@@ -1514,6 +1704,7 @@ def apply(prog):
             canonical_local(m.tree)          # the same local canonical forms whether or not the module changed
             continue            # the module is byte-identical to the reference
         known_consts = rfuncs.get('__consts__')
+        known_attrs = rfuncs.get('__classattrs__')
         rfuncs = {k: v for k, v in rfuncs.items() if not k.startswith('__')}
         if known_consts is not None:
             done = inline_new_constants(m.tree, set(known_consts))
@@ -1601,6 +1792,8 @@ def apply(prog):
             prog.normalization.setdefault('comprehensions_unrolled', {})[m.name] = n_comp
         if known_consts is not None:
             done = localise_new_tables(m.tree, set(known_consts))
+            if known_attrs is not None:
+                done = done + localise_new_class_tables(m.tree, set(known_attrs))
             if done:
                 prog.normalization.setdefault('tables_localised', {})[m.name] = done
         n_unrolled = unroll_constant_loops(m.tree)
